@@ -27,6 +27,14 @@ ASSUMPTIONS = [
     "WebTransport/blocked state initially; stated for the code with docs/C14-fix-1.patch and C14-fix-2.patch applied",
     "the normal form compared is: headers, push promises, body bytes (adjacent data events merged, empty ones dropped) "
     "and one end-of-stream marker per stream",
+    "chunking_independent_uni*, chunking_independent_uni_connection_level: hypotheses on pylsqpack ds_seq / enc_seq "
+    "(feeding x ++ y to the decoder / encoder stream = feeding x, then y), FIN only off the control stream, the decoder "
+    "never reports the stream being delivered itself as unblocked; stream invariant uinv / stream_ok (true of a new "
+    "stream, kept by every delivery)",
+    "interleaving_independent_headers / _push_promise: stated for the code with C14-fix-1..3 (all in /repo); the blocked "
+    "frame is the first thing of its delivery on a stream that is new or between two frames; one blocked stream, one "
+    "encoder-stream delivery; the decoder is deterministic in its input history: resume_header after the encoder data "
+    "arrived returns what feed_header returns once the data is known (o_resume = o_dec), and that is not StreamBlocked",
 ]
 
 
